@@ -154,8 +154,9 @@ Print Assumptions C17_lex_attr_value.
    dropped, declarations first: the tokenizer's finish_attribute) are exactly those of
    [tokenize (item_rtoken i)], the token C17_roundtrip_partial feeds the tree builder model.
    Hypotheses: the characters of the names are ones the tokenizer keeps in a name
-   ([tag_name_ok], [raw_ok]: no white space, '/', '>', '=', CR, U+0000 or reported character in the
-   respective positions - true of names that came out of this tokenizer), values without U+0000. *)
+   ([tag_name_ok], [raw_ok]: no white space, '/', '>', '=', CR or U+0000 in the respective positions -
+   true of names that came out of this tokenizer; a reported character in a name is allowed and costs
+   one parse-error token, [tag_errs_of]), values without U+0000. *)
 Theorem C17_lex_start_tag_partial :
   forall simd c1 sk name decls attrs b cu tk tn ta rest o k,
   XLexTag.tag_name_ok (qual name) = true ->
@@ -167,7 +168,7 @@ Theorem C17_lex_start_tag_partial :
       (XLexBase.mkM b IR.XData false 62 false None IR.TStartTag [] [] [] [] rest o' k') /\
     XLexBase.otoks o' =
       Interp.TTag IR.TStartTag (qual name) false tas false
-      :: rev (XLexTag.tag_errs_of (XRoundTrip.item_raws decls attrs)) ++ XLexBase.otoks o /\
+      :: rev (XLexTag.tag_errs_of (qual name) (XRoundTrip.item_raws decls attrs)) ++ XLexBase.otoks o /\
     tokenize (item_rtoken (IStart name decls attrs)) =
       TTag StartTag (process_qname (qual name)) (map XLexSer.conv_attr tas)
            (qual name, XRoundTrip.item_raws decls attrs).
@@ -183,7 +184,8 @@ Theorem C17_lex_end_tag_partial :
     InstXmlLex.xml_steps simd c1 sk
       (XLexBase.mkM b IR.XData false cu false None tk tn ta [] [] (render_item (IEnd name) ++ rest) o k)
       (XLexBase.mkM b IR.XData false 62 false None IR.TEndTag [] [] [] [] rest o' k') /\
-    XLexBase.otoks o' = Interp.TTag IR.TEndTag (qual name) false [] false :: XLexBase.otoks o /\
+    XLexBase.otoks o' = Interp.TTag IR.TEndTag (qual name) false [] false
+                        :: rev (XLexTag.bad_errs (qual name)) ++ XLexBase.otoks o /\
     tokenize (item_rtoken (IEnd name)) = TTag EndTag (process_qname (qual name)) [] (qual name, []).
 Proof. exact InstXmlLex.xml_end_item_lex. Qed.
 Print Assumptions C17_lex_end_tag_partial.
@@ -193,7 +195,7 @@ Print Assumptions C17_lex_end_tag_partial.
    XUnsrc.v, XLexTree.v, XLexHyps.v, XLexRound.v; eighteen more arm bodies, XLexMisc.xml_misc_bodies,
    discharged on the regenerated table in Inst/InstXmlLex.v).
    Side conditions, on the text of the node (all of them hold for a node this tokenizer produced,
-   with the three exceptions listed below):
+   with the two exceptions listed below - PI data starting with white space, the empty doctype name):
    - every character of a comment, of a PI target / data and of a doctype name is neither U+000D
      nor U+0000 ([pre_ok]; the input preprocessing never lets them through); a reported character
      (control character, noncharacter) is allowed and costs one parse-error token;
@@ -313,8 +315,8 @@ Print Assumptions C17_tree_builder_ignores_tag_source.
    the chunked queue and the default mode to it up to parse errors and the merging of character
    tokens, which the builder does not see; (c) "t = tree (parse x)" is replaced by the two decidable
    hypotheses: the check evaluates both on every tree the Rust parser produced and asserts
-   [lex_hyps] whenever [rt_hyps] holds, except for trees with a reported character in an element
-   or attribute name, an empty doctype name or a PI data starting with white space (see above).
+   [lex_hyps] whenever [rt_hyps] holds, except for trees with an empty doctype name or a PI data
+   starting with white space (see above).
    Doctype public / system identifiers are outside the serializer API ([strip_ids]). *)
 Theorem C17_roundtrip_through_tokenizer_partial :
   forall simd c1 sk, Interp.sk_resp sk = [] -> forall kids bom,
